@@ -35,6 +35,9 @@ SlotTypes == <<
     TBool,
     TTs("f1"),
     TTs("f2"),
+    TTs("f3"),                           \* a format with fractions of a second
+    TInt("Int32", 9, Unset),             \* Int32(min_value=0): a bound that is exactly zero
+    TInt("Int64", Unset, 9),             \* Int64(max_value=0)
     TList(I32b, 1, 2),
     TList(TList(TBool, Unset, Unset), Unset, 2),
     TMap(TNull(TRef("L"))),
